@@ -112,6 +112,8 @@ where
     /// Read an item that might not exist
     pub fn try_get(&self) -> Option<Arc<T>> {
         self.acl.assert_read_access(&self.id);
+        #[cfg(fontc_verif)]
+        fontdrasil::verif::event(|| fontdrasil::verif::Ev::Access { write: false, id: format!("{:?}", self.id) });
         self.value.read().as_ref().cloned()
     }
 }
@@ -144,6 +146,8 @@ where
             value.write(&mut writer);
         }
 
+        #[cfg(fontc_verif)]
+        fontdrasil::verif::event(|| fontdrasil::verif::Ev::Access { write: true, id: format!("{:?}", self.id) });
         *self.value.write() = Some(Arc::from(value));
     }
 }
@@ -188,16 +192,22 @@ where
     /// Read an item that might not exist
     pub fn try_get(&self, id: &I) -> Option<Arc<T>> {
         self.acl.assert_read_access(id);
+        #[cfg(fontc_verif)]
+        fontdrasil::verif::event(|| fontdrasil::verif::Ev::Access { write: false, id: format!("{id:?}") });
         self.value.read().get(id).cloned()
     }
 
     /// A copy of all the entries in the map. Values are arc'd so they are cheap, though not free, copies.
     pub fn all(&self) -> Vec<(I, Arc<T>)> {
+        #[cfg(fontc_verif)]
+        fontdrasil::verif::event(|| fontdrasil::verif::Ev::Access { write: false, id: format!("MAP:{}", std::any::type_name::<T>()) });
         self.value
             .read()
             .iter()
             .map(|(id, v)| {
                 self.acl.assert_read_access(id);
+                #[cfg(fontc_verif)]
+                fontdrasil::verif::event(|| fontdrasil::verif::Ev::Access { write: false, id: format!("{id:?}") });
                 (id.clone(), v.clone())
             })
             .collect()
@@ -242,6 +252,13 @@ where
             value.write(&mut writer);
         }
 
+        #[cfg(fontc_verif)]
+        {
+            fontdrasil::verif::event(|| fontdrasil::verif::Ev::Access { write: true, id: format!("{key:?}") });
+            if !self.value.read().contains_key(&key) {
+                fontdrasil::verif::event(|| fontdrasil::verif::Ev::Access { write: true, id: format!("MAP:{}", std::any::type_name::<T>()) });
+            }
+        }
         self.value.write().insert(key, Arc::from(value));
     }
 }
